@@ -227,15 +227,18 @@ package net
 // that error and ends the loop.
 //@ ghostfield nread int counter
 //@ ghostfield ndisp int counter
+//@ ghostfield nclose int counter
 //@ func (e *endPoint) process()
 //@   tags C10 C11 C12
 //@   requires e.stream != nil && !e.handlersMutex.lockw && e.nread == e.ndisp
-//@   modifies everything, e.nread, e.ndisp
+//@   modifies everything, e.nread, e.ndisp, e.nclose
+//@   ensures[C11] e.nclose == old(e.nclose) + 1
 //@   call Read#1: assume 0 <= e.stream.pos && e.stream.pos <= e.stream.len
 //@   call Read#1: assert[C10] e.nread == e.ndisp
 //@   call Read#1: ghost e.nread := e.nread + 1
 //@   call dispatch#1: assert[C10] e.nread == e.ndisp + 1 && arg0 == msg
 //@   call dispatch#1: ghost e.ndisp := e.ndisp + 1
 //@   call closeWith#1: assert[C11] err != nil && arg0 == err
+//@   call closeWith#1: ghost e.nclose := e.nclose + 1
 //@   loop 1:
-//@     invariant e.stream != nil && !e.handlersMutex.lockw && e.nread == e.ndisp
+//@     invariant e.stream != nil && !e.handlersMutex.lockw && e.nread == e.ndisp && e.nclose == old(e.nclose)
